@@ -703,7 +703,21 @@ func (c *Ctx) gcRule(id string, m *trackerModel, nickDel *ssa.Function) {
 					if !isB {
 						continue
 					}
-					if lenOfField(bo.X, m.nkChans, nk) && isZero(bo.Y) && ((bo.Op == token.EQL && cd.True) || (bo.Op == token.NEQ && !cd.True) || (bo.Op == token.GTR && !cd.True)) {
+					// ... or the count of remaining channels that the nick-side delete itself hands back
+					remaining := false
+					if call0, isCall0 := cs.(*ssa.Call); isCall0 && bo.X == ssa.Value(call0) && len(nickDel.Params) > 0 {
+						nR, all := 0, true
+						funcInstrs(nickDel, func(y ssa.Instruction) {
+							if rt, isR := y.(*ssa.Return); isR && len(rt.Results) == 1 {
+								nR++
+								if !lenOfField(retVal(rt, 0), m.nkChans, nickDel.Params[0]) {
+									all = false
+								}
+							}
+						})
+						remaining = all && nR > 0
+					}
+					if (lenOfField(bo.X, m.nkChans, nk) || remaining) && isZero(bo.Y) && ((bo.Op == token.EQL && cd.True) || (bo.Op == token.NEQ && !cd.True) || (bo.Op == token.GTR && !cd.True)) {
 						if instrDominates(cs, cd.If) {
 							ok, why = true, "len(nk.chans) == 0 leads to the nick's deletion"
 						}
@@ -1254,12 +1268,44 @@ func (c *Ctx) lineArgIndex(v ssa.Value, line ssa.Value) (int, bool) {
 	if !ok {
 		return 0, false
 	}
-	fv, base := loadedField(ia.X)
-	if fv == nil || fv.Name() != "Args" || base != line {
+	off, ok := c.argsView(ia.X, line, 0)
+	if !ok {
 		return 0, false
 	}
 	k, ok := constInt(ia.Index)
-	return int(k), ok
+	return off + int(k), ok
+}
+
+// argsView: v denotes line.Args[off:] - the field itself, a tail slice of such
+// a view, or (inside a helper, see argSubst) a parameter the handler passed
+// such a view for.
+func (c *Ctx) argsView(v ssa.Value, line ssa.Value, depth int) (int, bool) {
+	if depth > 4 {
+		return 0, false
+	}
+	if fv, base := loadedField(v); fv != nil && fv.Name() == "Args" && base == line {
+		return 0, true
+	}
+	switch t := v.(type) {
+	case *ssa.Slice:
+		if t.High != nil || t.Max != nil {
+			return 0, false
+		}
+		off, ok := c.argsView(t.X, line, depth+1)
+		if !ok {
+			return 0, false
+		}
+		if t.Low == nil {
+			return off, true
+		}
+		k, okk := constInt(t.Low)
+		return off + int(k), okk
+	case *ssa.Parameter:
+		if sub, ok := c.argSubst[t]; ok {
+			return c.argsView(sub, line, depth+1)
+		}
+	}
+	return 0, false
 }
 
 func (c *Ctx) lineField(v ssa.Value, line ssa.Value, name string) bool {
@@ -1289,11 +1335,9 @@ func (c *Ctx) matchArg(v ssa.Value, spec argSpec, line ssa.Value) (bool, string)
 		return false, "want constant " + spec.val
 	case "rest":
 		// varargs slice: line.Args[idx:]
-		if sl, ok := v.(*ssa.Slice); ok && sl.High == nil {
-			if fv, base := loadedField(sl.X); fv != nil && fv.Name() == "Args" && base == line {
-				if k, ok := constInt(sl.Low); ok && int(k) == spec.idx {
-					return true, ""
-				}
+		if _, isSl := v.(*ssa.Slice); isSl {
+			if off, ok := c.argsView(v, line, 0); ok && off == spec.idx {
+				return true, ""
 			}
 		}
 		return false, fmt.Sprintf("want line.Args[%d:]...", spec.idx)
@@ -1532,6 +1576,8 @@ func runC13(c *Ctx) {
 	c.setterRule("R11")
 	r.Rule("R12", "the channels' modes are all tracked: every boolean field of ChanMode, NickMode and ChanPrivs is written by the mode parsers, each at one site, with the sign in force (shared with C12.R16) - a mode character that falls through to 'unknown' leaves the tracked modes behind the server's")
 	c.modeFlagStoresRule("R12")
+	r.Rule("R13", "the state handlers see every line the server sends: in the receive goroutine no condition other than the read error decides whether a line is parsed, and a parsed line is always enqueued (shared with C01.R5) - a length check that counts the terminator twice drops the 510-character NAMES lines of large channels")
+	c.everyLineParsedRule("R13")
 
 	nCalls := c.effectsRule("R1", nil)
 	r.Floor("R1", "tracker effect call sites checked", nCalls, 13)
@@ -1620,8 +1666,18 @@ func runC13(c *Ctx) {
 	c.trackerRules(map[string]string{"R1": "R4", "R3": "R4", "R4": "R4", "R5": "R4", "R7": "R4", "R8": "R4", "R9": "R4", "R10": "R4"})
 	est := c.Func(c.Client, "(*Conn).EnableStateTracking")
 	okSeed := false
+	// the function that makes the tracker: EnableStateTracking itself, or what it delegates to
+	seeders := []*ssa.Function{}
 	if est != nil {
-		funcInstrs(est, func(in ssa.Instruction) {
+		seeders = append(seeders, est)
+		for _, cs := range CallSites(est) {
+			if sc := cs.Common().StaticCallee(); sc != nil && c.InModuleFn(sc) && sc.Package() == c.Client && !cs.Common().IsInvoke() {
+				seeders = append(seeders, sc)
+			}
+		}
+	}
+	for _, sf := range seeders {
+		funcInstrs(sf, func(in ssa.Instruction) {
 			if call, ok := in.(*ssa.Call); ok && call.Call.StaticCallee() != nil && call.Call.StaticCallee().Name() == "NewTracker" {
 				// argument: Nick field of Config.Me
 				if fv, base := loadedField(call.Call.Args[0]); fv != nil && fv.Name() == "Nick" {
@@ -2068,6 +2124,43 @@ func (c *Ctx) setterRule(rule string) {
 					}
 					n++
 					ok = SetDominates(fn, isStore, rt)
+					if ph, isPh := retVal(rt, 0).(*ssa.Phi); isPh && !ok && len(rt.Results) > 0 && ph.Block() == rt.Block() {
+						// one return for success and failure (a named result): the store must come before every
+						// edge that brings a non-nil answer
+						ok = true
+						for i, e := range ph.Edges {
+							if isNilConst(e) {
+								continue
+							}
+							pred := ph.Block().Preds[i]
+							if len(pred.Instrs) == 0 || !SetDominates(fn, isStore, pred.Instrs[len(pred.Instrs)-1]) {
+								ok = false
+							}
+						}
+					}
+					if ld, isLd := retVal(rt, 0).(*ssa.UnOp); isLd && !ok && ld.Op == token.MUL {
+						// a named result kept in a cell (the function defers): the store must come before every
+						// assignment of a non-nil answer to the result
+						if al, isAl := ld.X.(*ssa.Alloc); isAl {
+							nReal := 0
+							ok = true
+							for _, st := range cellStores(al) {
+								if l2, isL2 := st.Val.(*ssa.UnOp); isL2 && l2.Op == token.MUL && l2.X == ssa.Value(al) {
+									continue
+								}
+								if isNilConst(st.Val) {
+									continue
+								}
+								nReal++
+								if st.Parent() != fn || !SetDominates(fn, isStore, st) {
+									ok = false
+								}
+							}
+							if nReal == 0 {
+								ok = false
+							}
+						}
+					}
 					r.Add(rule, fmt.Sprintf("setter:%s:%s", c.FuncKey(fn), fv.Name()), c.InstrPos(rt), c.FuncKey(fn),
 						"parameter "+pr.Name()+" is stored to "+fv.Name()+" on every successful path", ok,
 						"the success return is reachable without storing "+pr.Name()+" to "+fv.Name()+" (conditional store: the attribute can keep a stale value)")
@@ -2461,6 +2554,7 @@ func (c *Ctx) effectsRule(rule string, only []string) int {
 				found++
 				nCalls++
 				args := dc.Args
+				c.argSubst = dc.Subst
 				ok, why := len(args) == len(spec.args), fmt.Sprintf("%d arguments, want %d", len(args), len(spec.args))
 				if ok {
 					why = "arguments from the prescribed line parts"
@@ -2478,6 +2572,7 @@ func (c *Ctx) effectsRule(rule string, only []string) int {
 						}
 					}
 				}
+				c.argSubst = nil
 				r.Add(rule, fmt.Sprintf("effect:%s:%s#%d", verb, spec.method, found), c.InstrPos(dc.Site), c.FuncKey(h), verb+" -> "+spec.method+" with the protocol's parameter layout", ok, why)
 			}
 			if found == 0 {
@@ -2874,7 +2969,24 @@ func (c *Ctx) lockedBody(fn *ssa.Function) *ssa.Function {
 				return
 			}
 			cal := t.Call.StaticCallee()
-			if cal == nil || t.Call.IsInvoke() || !c.InModuleFn(cal) || cal.Signature.Recv() == nil || (cal.Object() != nil && cal.Object().Exported()) || len(t.Call.Args) == 0 || t.Call.Args[0] != ssa.Value(fn.Params[0]) {
+			isRecv := func(v ssa.Value) bool {
+				if v == ssa.Value(fn.Params[0]) {
+					return true
+				}
+				// the receiver spilled to a cell because a closure captures it
+				if u, ok := v.(*ssa.UnOp); ok && u.Op == token.MUL {
+					if al, ok := u.X.(*ssa.Alloc); ok {
+						for _, st := range cellStores(al) {
+							if st.Val != ssa.Value(fn.Params[0]) {
+								return false
+							}
+						}
+						return len(cellStores(al)) > 0
+					}
+				}
+				return false
+			}
+			if cal == nil || t.Call.IsInvoke() || !c.InModuleFn(cal) || cal.Signature.Recv() == nil || (cal.Object() != nil && cal.Object().Exported()) || len(t.Call.Args) == 0 || !isRecv(t.Call.Args[0]) {
 				okShape = false
 				return
 			}
@@ -2884,14 +2996,64 @@ func (c *Ctx) lockedBody(fn *ssa.Function) *ssa.Function {
 			if op, isL := c.lockOpOf(in); !isL || (op.Method != "Unlock" && op.Method != "RUnlock") {
 				okShape = false
 			}
-		case *ssa.Store, *ssa.MapUpdate, *ssa.Go, *ssa.Send, *ssa.If, *ssa.Lookup:
+		case *ssa.Store:
+			// spilling a parameter to the cell a closure captures is not work
+			if _, isP := t.Val.(*ssa.Parameter); isP {
+				if _, isAl := t.Addr.(*ssa.Alloc); isAl {
+					return
+				}
+			}
+			okShape = false
+		case *ssa.MapUpdate, *ssa.Go, *ssa.Send, *ssa.If, *ssa.Lookup:
 			okShape = false
 		}
 	})
 	if okShape && n == 1 && inner != nil {
+		// "run this closure under the lock": the work is the closure
+		if len(fn.AnonFuncs) == 1 {
+			handsClosure := false
+			funcInstrs(fn, func(in ssa.Instruction) {
+				if call, ok := in.(*ssa.Call); ok && call.Call.StaticCallee() == inner {
+					for _, av := range call.Call.Args[1:] {
+						if mc, isMC := av.(*ssa.MakeClosure); isMC && mc.Fn == ssa.Value(fn.AnonFuncs[0]) {
+							handsClosure = true
+						}
+					}
+				}
+			})
+			if handsClosure && c.callsOnlyItsFuncParam(inner) {
+				return fn.AnonFuncs[0]
+			}
+		}
 		return inner
 	}
 	return fn
+}
+
+// callsOnlyItsFuncParam: h takes its receiver's lock (released by a deferred
+// unlock) and calls its function-typed parameter - nothing else.
+func (c *Ctx) callsOnlyItsFuncParam(h *ssa.Function) bool {
+	ok, called := true, 0
+	funcInstrs(h, func(in ssa.Instruction) {
+		switch t := in.(type) {
+		case *ssa.Call:
+			if _, isL := c.lockOpOf(in); isL {
+				return
+			}
+			if pr, isP := t.Call.Value.(*ssa.Parameter); isP && pr.Parent() == h {
+				called++
+				return
+			}
+			ok = false
+		case *ssa.Defer:
+			if op, isL := c.lockOpOf(in); !isL || (op.Method != "Unlock" && op.Method != "RUnlock") {
+				ok = false
+			}
+		case *ssa.Store, *ssa.MapUpdate, *ssa.Go, *ssa.Send:
+			ok = false
+		}
+	})
+	return ok && called == 1
 }
 
 // rawKeysRule: the tracker's tables are keyed by names exactly as given: every
@@ -2933,6 +3095,9 @@ func (c *Ctx) rawKeysRule(rule string) {
 			n++
 			ok, why := true, "the name as given"
 			for _, o := range c.originsLocal(op.Key) {
+				if c.capturedParam(o) {
+					continue
+				}
 				switch t := o.(type) {
 				case *ssa.Parameter:
 				case *ssa.Extract:
@@ -3016,6 +3181,92 @@ func (c *Ctx) refusalInertRule(rule string) {
 			})
 		}
 	}
+	// mutReach: the instructions reachable from a mutation in fn. A call of a helper that itself answers nil only
+	// when it has changed nothing (a "track it unless it is there" helper) counts as a mutation only where its
+	// result is not nil.
+	inertMemo := map[*ssa.Function]int{}
+	var nilInert func(fn *ssa.Function) bool
+	var mutReach func(fn *ssa.Function) map[ssa.Instruction]bool
+	mutReach = func(fn *ssa.Function) map[ssa.Instruction]bool {
+		reach := map[ssa.Instruction]bool{}
+		funcInstrs(fn, func(in ssa.Instruction) {
+			isM := direct(fn, in)
+			var res *ssa.Call
+			if cs, ok := in.(*ssa.Call); ok && !isM {
+				if cal := cs.Call.StaticCallee(); cal != nil && mut[cal] {
+					isM = true
+					if nilInert(cal) {
+						res = cs
+					}
+				}
+			}
+			if !isM || reach[in] {
+				return
+			}
+			skip := func(from, to *ssa.BasicBlock) bool {
+				if res == nil {
+					return false
+				}
+				cd, ok := edgeCond(from, to)
+				if !ok {
+					return false
+				}
+				cd = unwrapNot(cd)
+				bo, isB := cd.V.(*ssa.BinOp)
+				if !isB || (bo.Op != token.EQL && bo.Op != token.NEQ) {
+					return false
+				}
+				var other ssa.Value
+				if isNilConst(bo.Y) {
+					other = bo.X
+				} else if isNilConst(bo.X) {
+					other = bo.Y
+				}
+				// the edge on which the helper's result is nil: nothing was changed
+				return other == ssa.Value(res) && (bo.Op == token.EQL) == cd.True
+			}
+			for x := range ReachFromFiltered(in, true, nil, skip) {
+				reach[x] = true
+			}
+		})
+		return reach
+	}
+	nilInert = func(fn *ssa.Function) bool {
+		if v, ok := inertMemo[fn]; ok {
+			return v == 1
+		}
+		inertMemo[fn] = 2 // recursion: not inert
+		if fn.Blocks == nil || fn.Signature.Results().Len() != 1 {
+			return false
+		}
+		if _, isP := fn.Signature.Results().At(0).Type().Underlying().(*types.Pointer); !isP {
+			return false
+		}
+		reach := mutReach(fn)
+		ok, nNil := true, 0
+		funcInstrs(fn, func(in ssa.Instruction) {
+			if rt, isR := in.(*ssa.Return); isR && len(rt.Results) == 1 && isNilConst(retVal(rt, 0)) {
+				nNil++
+				if reach[rt] {
+					ok = false
+				}
+			}
+		})
+		// ... and a nil answer is always one of those returns (no nil smuggled through a variable)
+		funcInstrs(fn, func(in ssa.Instruction) {
+			if rt, isR := in.(*ssa.Return); isR && len(rt.Results) == 1 && !isNilConst(retVal(rt, 0)) {
+				for _, o := range c.originsLocal(retVal(rt, 0)) {
+					if isNilConst(o) {
+						ok = false
+					}
+				}
+			}
+		})
+		if ok && nNil > 0 {
+			inertMemo[fn] = 1
+		}
+		return ok && nNil > 0
+	}
 	n := 0
 	for _, fn := range m.funcs {
 		if fn.Object() == nil || !fn.Object().Exported() || fn.Signature.Recv() == nil || fn.Signature.Results().Len() == 0 || !mut[fn] {
@@ -3025,20 +3276,7 @@ func (c *Ctx) refusalInertRule(rule string) {
 			continue
 		}
 		k := 0
-		reach := map[ssa.Instruction]bool{}
-		funcInstrs(fn, func(in ssa.Instruction) {
-			isM := direct(fn, in)
-			if cs, ok := in.(*ssa.Call); ok && !isM {
-				if cal := cs.Call.StaticCallee(); cal != nil && mut[cal] {
-					isM = true
-				}
-			}
-			if isM && !reach[in] {
-				for x := range ReachFrom(in, true, nil) {
-					reach[x] = true
-				}
-			}
-		})
+		reach := mutReach(fn)
 		funcInstrs(fn, func(in ssa.Instruction) {
 			rt, ok := in.(*ssa.Return)
 			if !ok || len(rt.Results) == 0 || !isNilConst(retVal(rt, 0)) {
@@ -3050,4 +3288,58 @@ func (c *Ctx) refusalInertRule(rule string) {
 		})
 	}
 	r.Floor(rule, "nil returns of mutating tracker operations", n, 10)
+}
+
+// capturedParam: v, inside a closure, is (a load of) a free variable that the
+// enclosing function binds to one of its own parameters (to the cell the
+// parameter was spilled to, written by nothing else).
+func (c *Ctx) capturedParam(v ssa.Value) bool {
+	var fvv *ssa.FreeVar
+	if u, ok := v.(*ssa.UnOp); ok && u.Op == token.MUL {
+		fvv, _ = u.X.(*ssa.FreeVar)
+	} else {
+		fvv, _ = v.(*ssa.FreeVar)
+	}
+	if fvv == nil {
+		return false
+	}
+	anon := fvv.Parent()
+	outer := anon.Parent()
+	if outer == nil {
+		return false
+	}
+	idx := -1
+	for i, f := range anon.FreeVars {
+		if f == fvv {
+			idx = i
+		}
+	}
+	found, ok := false, true
+	funcInstrs(outer, func(in ssa.Instruction) {
+		mc, isMC := in.(*ssa.MakeClosure)
+		if !isMC || mc.Fn != ssa.Value(anon) || idx < 0 || idx >= len(mc.Bindings) {
+			return
+		}
+		found = true
+		switch b := mc.Bindings[idx].(type) {
+		case *ssa.Parameter:
+		case *ssa.Alloc:
+			for _, ref := range *b.Referrers() {
+				if st, isSt := ref.(*ssa.Store); isSt && st.Addr == ssa.Value(b) {
+					if _, isP := st.Val.(*ssa.Parameter); !isP {
+						ok = false
+					}
+				}
+			}
+			// ... and the closure itself does not assign it
+			for _, ref := range *fvv.Referrers() {
+				if st, isSt := ref.(*ssa.Store); isSt && st.Addr == ssa.Value(fvv) {
+					ok = false
+				}
+			}
+		default:
+			ok = false
+		}
+	})
+	return found && ok
 }
